@@ -37,6 +37,9 @@ def check(ctx, run):
     editing.r06_18(ctx, run, rule='R07.13/R06.18')
     # what an editor drops decides whether its result equals the tree result (R06.8)
     editing.r06_8(ctx, run, rule='R07.14/R06.8')
+    # the editors walk their operands with the container iterators: an iterator that ends early loses members (R05.18)
+    from rules import walkers as _walkers
+    _walkers.r05_18(ctx, run, 'R07.15/R05.18')
     accessors.name_variants_alike(ctx, run, 'R07.7', lambda p_: p_.startswith('functions::'))
     from rules import layout as _layout
     _layout.r01_2(ctx, run, rule='R07.9/R01.2')
